@@ -1,5 +1,7 @@
+import Sparrow.Proofs.PipelineTranslation
 import Sparrow.Proofs.PointPatchLemmas
 import Sparrow.Proofs.StokesLemmas
+import Sparrow.Proofs.NusseltLemmas
 import Sparrow.Proofs.Tiling
 import Sparrow.Proofs.FrameLemmas
 import Sparrow.Proofs.VisibilityLemmas
@@ -13,6 +15,17 @@ import Sparrow.Proofs.VisibilityLemmas
 -/
 namespace Sparrow.Props.C17
 open Sparrow Vec3
+
+/-- **Translating the whole scene — room, source and receiver — changes nothing**: the same
+    patches are created (translated), the same pairs are visible, and form factors, baked
+    factors, index maps, initial energies, source distances, patch histograms and the receiver
+    curve are identical.  For every room of axis-aligned rectangular walls, patch size,
+    materials, attenuation, run parameters, source, receiver and translation vector. -/
+theorem runPipeline_translation (eta thr : ℝ) (room : Room ℝ) (mat : Materials ℝ) (par : RunPar ℝ)
+    (src recv t : Vec3 ℝ) :
+    (runPipeline eta thr (room.translate t) mat par (add src t) (add recv t)).map RunResult.observed =
+      (runPipeline eta thr room mat par src recv).map RunResult.observed :=
+  Sparrow.runPipeline_translation eta thr room mat par src recv t
 
 /-- translating point and patch together changes nothing -/
 theorem pt_translation (thr : ℝ) (x t : Vec3 ℝ) (pts : Nat → Vec3 ℝ) (n : Nat) :
@@ -52,6 +65,25 @@ theorem stokes_axis_swap (cut : ℝ) (pi pj : Nat → Vec3 ℝ) (ni nj : Nat) (a
     stokesFF cut (fun k => ⟨(pi k).y, (pi k).x, (pi k).z⟩) (fun k => ⟨(pj k).y, (pj k).x, (pj k).z⟩) ni nj areaI =
       stokesFF cut pi pj ni nj areaI :=
   Sparrow.stokes_axis_swap cut pi pj ni nj areaI
+
+/-- The Nusselt analogue depends only on the directions from the evaluation point to the patch:
+    translating point and patch together changes nothing … -/
+theorem nusseltAnalog_translation (origin sn pn t : Vec3 ℝ) (pts : Nat → Vec3 ℝ) (n : Nat) :
+    nusseltAnalog (add origin t) sn (fun k => add (pts k) t) n pn = nusseltAnalog origin sn pts n pn :=
+  Sparrow.nusseltAnalog_translation origin sn pn t pts n
+
+/-- … and so does scaling the patch about the evaluation point by `s > 0`. -/
+theorem nusseltAnalog_scaling (origin sn pn : Vec3 ℝ) (pts : Nat → Vec3 ℝ) (n : Nat) (s : ℝ) (hs : 0 < s) :
+    nusseltAnalog origin sn (fun k => add origin (smul s (sub (pts k) origin))) n pn =
+      nusseltAnalog origin sn pts n pn :=
+  Sparrow.nusseltAnalog_scaling origin sn pn pts n s hs
+
+/-- hence the form factor that `bake_geometry` stores is translation invariant, whichever
+    integrator is chosen -/
+theorem universalFF_translation (pi pj : Nat → Vec3 ℝ) (ni nj : Nat) (nrmI nrmJ t : Vec3 ℝ) (areaI : ℝ) :
+    universalFF (fun k => add (pi k) t) ni nrmI areaI (fun k => add (pj k) t) nj nrmJ =
+      universalFF pi ni nrmI areaI pj nj nrmJ :=
+  Sparrow.universalFF_translation pi pj ni nj nrmI nrmJ t areaI
 
 /-- Translation covariance: translating the wall by `t` translates every patch by `t`
     (same cell counts and sizes, anchor shifted). -/
